@@ -23,7 +23,10 @@ class _Synchronous:
 
 
 class Sched:
-    def __init__(self, seed=0, isolate=False, reverse=False):
+    def __init__(self, seed=0, isolate=False, reverse=False, cache=None):
+        # cache: None, or a dict shared between several get() calls that plays dask's documented opportunistic result cache
+        # (dask.cache.Cache): a task whose KEY is already in the cache is not run again, its stored result is substituted
+        self.cache = cache
         self.rng = random.Random(seed)
         self.isolate = isolate
         self.reverse = reverse
@@ -43,9 +46,16 @@ class Sched:
 
             def _posttask(self, key, value, dsk_, state, id_):
                 sched._mix(state["ready"])
+                if sched.cache is not None:
+                    sched.cache[key] = value
 
         extra = dict(dumps=cloudpickle.dumps, loads=cloudpickle.loads) if self.isolate else {}
         kwargs.pop("num_workers", None)
+        if self.cache is not None:
+            dsk = dict(dsk.__dask_graph__()) if hasattr(dsk, "__dask_graph__") else dict(dsk)
+            for k_ in list(dsk):
+                if k_ in self.cache:
+                    dsk[k_] = self.cache[k_]
         with Shuffle():
             res = dask.local.get_async(_Synchronous().submit, 1, dsk, keys, **extra)
         self.orders.append(order)
@@ -59,8 +69,8 @@ class Sched:
             self.rng.shuffle(ready)
 
 
-def run_under(seed, isolate, fn, reverse=False):
-    s = Sched(seed=seed, isolate=isolate, reverse=reverse)
+def run_under(seed, isolate, fn, reverse=False, cache=None):
+    s = Sched(seed=seed, isolate=isolate, reverse=reverse, cache=cache)
     with dask.config.set(scheduler=s.get):
         out = fn()
     return out, s
